@@ -2228,7 +2228,9 @@ Proof. intros lk e. apply seg_all_aux. Qed.
    (Proofs/Atomize.v): every delegated block yields its first result only.                 *)
 (* ====================================================================================== *)
 Section D.
-Hypothesis HfuelS : fuel = S (length (c_text cx)).   (* the fuel the Delegate oracle runs with *)
+(* the fuel the Delegate oracle runs with (behind a definition so that [subst] leaves it alone) *)
+Definition FuelS : Prop := fuel = S (length (c_text cx)).
+Hypothesis HfuelS : FuelS.
 
 Definition okinsn2 (i : insn) : bool :=
   match i with IDelegate es sg eg => forallb easyx es && (eg =? sg + ngroups_list es) | _ => true end.
@@ -2264,7 +2266,7 @@ Lemma block_step lk es sg eg pc ns v K : at_ pc (IDelegate es sg eg) ->
 Proof.
   intros Ha He Heg H2 Hns Hsl.
   pose proof (step_delegate cx P MS pc (v_ix v) (v_sl v) (v_aux v) K es sg eg NC Ha He Heg H2 ltac:(lia)) as Hs.
-  rewrite <- HfuelS in Hs. rewrite sem_concat_eq in Hs. fold (caps (v_sl v)) in Hs.
+  pose proof HfuelS as HfS. unfold FuelS in HfS. rewrite <- HfS in Hs. clear HfS. rewrite sem_concat_eq in Hs. fold (caps (v_sl v)) in Hs.
   change (v_ix v, caps (v_sl v)) with (sof v) in Hs.
   destruct (sem_cat cx fuel sg es (sof v)) as [|x rest]; cbn [hd_error firstn map] in *.
   - apply Gen_none. apply steps_step. exact Hs.
@@ -2528,6 +2530,248 @@ Proof.
   assert (EA : blockf g A st = match A with [] => [st] | _ :: _ => firstn 1 (sem_cat cx fuel g A st) end) by reflexivity.
   rewrite <- EA. apply flat_map_ext. intros s.
   rewrite sem_cat_app, asem_cat_eq, ngl_atom_list. apply flat_map_ext. intros s2. rewrite sem_cat_wrapA. reflexivity.
+Qed.
+
+
+(* the alternation / sequence layouts once more, for programs with any Delegate instruction *)
+Section GenLayoutD.
+Variables lk0 lk : bool.
+Variable cf : expr -> nat -> nat -> nat -> cerr + cres.
+Variable sf : expr -> nat -> sst -> list sst.
+
+Definition cf_okD (x : expr) : Prop := forall g pc ns code ns',
+  cf x g pc ns = inr (code, ns') -> okdeleg2 code -> At pc code -> oke lk0 g x -> NC <= ns ->
+  2 * (g + ngroups x) <= NC -> segP lk pc code ns ns' (sf x g).
+
+Lemma gseg_altsD : forall r x, Forall cf_okD (x :: r) -> forall g pc ns cds ns',
+  (galt_codes cf) g pc ns (x :: r) = inr (cds, ns') ->
+  okdeleg2 (alt_layout pc (pc + alt_size cds) cds) -> At pc (alt_layout pc (pc + alt_size cds) cds) ->
+  okl lk0 g (x :: r) -> NC <= ns -> 2 * (g + ngroups_list (x :: r)) <= NC ->
+  ns <= ns' /\
+  forall v K, ns' <= length (v_sl v) -> st_ok cs (sof v) ->
+  Gen pc (pc + alt_size cds) K (RunV pc v K) (map (R lk v ns ns') ((gsem_alts sf) g (x :: r) (sof v))).
+Proof.
+  induction r as [|y r IH]; intros x HF g pc ns cds ns' Hc Hnd HAt Hok Hns Hng.
+  - cbn [galt_codes] in Hc. destruct (cf x g pc ns) as [er|[c ns1]] eqn:Hx; [discriminate|].
+    inversion Hc; subst cds ns'. cbn [alt_layout alt_size] in *.
+    inversion HF; subst. apply okl_cons in Hok as [Hox _]. rewrite ngl_cons, ngl_nil in Hng.
+    destruct (H1 g pc ns c ns1 Hx Hnd HAt Hox Hns ltac:(lia)) as [M G]. split; auto.
+    intros v K Hsl Hokv. cbn [gsem_alts]. rewrite app_nil_r. apply G; auto.
+  - rewrite (galt_codes_cons2 cf) in Hc. destruct (cf x g (pc + 1) ns) as [er|[c ns1]] eqn:Hx; [discriminate|].
+    destruct ((galt_codes cf) (g + ngroups x) (pc + 1 + length c + 1) ns1 (y :: r)) as [er|[cds' ns2]] eqn:Hr; [discriminate|].
+    inversion Hc; subst cds ns'. clear Hc.
+    destruct ((galt_codes_ne cf) _ _ _ _ _ _ _ Hr) as (c' & r' & ->).
+    set (endpc := pc + alt_size (c :: c' :: r')) in *.
+    assert (Eend : endpc = (pc + 1 + length c + 1) + alt_size (c' :: r')) by (unfold endpc; rewrite alt_size_cons2; lia).
+    rewrite alt_layout_cons2 in Hnd, HAt.
+    apply okdeleg2_cons in Hnd as [_ Hnd]. apply okdeleg2_app in Hnd as [Hnc Hnd]. apply okdeleg2_cons in Hnd as [_ Hnr].
+    apply At_cons in HAt as [Ha1 HAt]. apply At_app in HAt as [HAc HAt]. apply At_cons in HAt as [Ha2 HAr].
+    replace (S pc) with (pc + 1) in * by lia.
+    replace (S (pc + 1 + length c)) with (pc + 1 + length c + 1) in HAr by lia.
+    inversion HF as [|? ? Hsx HFr]; subst. apply okl_cons in Hok as [Hox Hor]. rewrite ngl_cons in Hng.
+    destruct (Hsx g (pc + 1) ns c ns1 Hx Hnc HAc Hox Hns ltac:(lia)) as [M1 G1].
+    rewrite Eend in Hnr, HAr.
+    destruct (IH y HFr _ _ _ _ _ Hr Hnr HAr Hor ltac:(lia) ltac:(lia)) as [M2 G2].
+    split; [lia|]. intros v K Hsl Hokv. cbn [gsem_alts]. rewrite map_app.
+    apply Gen_step. unfold RunV at 1. rewrite (step_split cx P MS pc _ _ _ K _ _ Ha1).
+    fold (alt_of (pc + 1 + length c + 1) v).
+    change (Run (pc + 1) (v_ix v) (v_sl v) (v_aux v) (alt_of (pc + 1 + length c + 1) v :: K))
+      with (RunV (pc + 1) v ([alt_of (pc + 1 + length c + 1) v] ++ K)).
+    apply Gen_app with (F := [alt_of (pc + 1 + length c + 1) v]).
+    + constructor; [|constructor]. cbn [alt_of a_pc]. lia.
+    + apply Gen_weaken with (p := pc + 1); [lia|].
+      eapply Gen_map with (q := pc + 1 + length c); [lia| |apply (Gen_R_widen lk _ _ _ _ v ns ns1 ns ns2); [lia|lia|apply G1; auto; lia]].
+      apply Forall2_same_map. intros a _ v' K1 HR. exists v'. split; auto.
+      apply steps_step. unfold RunV. apply step_jmp. exact Ha2.
+    + apply Gen_step. cbn [app Machine.mstep alt_of a_pc a_ix a_slots a_aux].
+      change (Run (pc + 1 + length c + 1) (v_ix v) (v_sl v) (v_aux v) K) with (RunV (pc + 1 + length c + 1) v K).
+      apply Gen_weaken with (p := pc + 1 + length c + 1); [lia|]. rewrite Eend.
+      apply (Gen_R_widen lk _ _ _ _ v ns1 ns2 ns ns2); [lia|lia|]. apply G2; auto.
+Qed.
+
+Hypothesis sf_ok : forall x g st st', oke lk0 g x -> st_ok cs st -> In st' (sf x g st) -> st_ok cs st'.
+
+Lemma gseg_seqD : forall B, Forall cf_okD B -> forall g pc ns code ns',
+  (gseq_codes cf) g pc ns B = inr (code, ns') -> okdeleg2 code -> At pc code ->
+  okl lk0 g B -> NC <= ns -> 2 * (g + ngroups_list B) <= NC ->
+  segP lk pc code ns ns' ((gsem_seq sf) g B).
+Proof.
+  induction 1 as [|x r Hx Hr IH]; intros g pc ns code ns' Hv Hnd HAt Hokl Hns Hng; cbn [gseq_codes] in Hv.
+  - inversion Hv; subst. apply segP_nil.
+  - apply bindc_inr in Hv as ([c1 ns1] & H1 & Hv). apply bindc_inr in Hv as ([c2 ns2] & H2 & Hv).
+    inversion Hv; subst code ns'. clear Hv.
+    apply okdeleg2_app in Hnd as [Hn1 Hn2]. apply At_app in HAt as [HA1 HA2].
+    apply okl_cons in Hokl as [Ho1 Ho2]. rewrite ngl_cons in Hng.
+    pose proof (Hx g pc ns c1 ns1 H1 Hn1 HA1 Ho1 Hns ltac:(lia)) as S1.
+    assert (M1 : ns <= ns1) by apply S1.
+    pose proof (IH _ _ _ _ _ H2 Hn2 HA2 Ho2 ltac:(lia) ltac:(lia)) as S2.
+    cbn [gsem_seq]. apply segP_app with (ns1 := ns1); auto.
+    intros st st' Hs Hin. exact (sf_ok x g st st' Ho1 Hs Hin).
+Qed.
+
+End GenLayoutD.
+
+
+Lemma alt_codes_galt hc : forall l g pc ns,
+  alt_codes hc g pc ns l = galt_codes (fun x g pc ns => visit bs x g hc pc ns) g pc ns l.
+Proof.
+  induction l as [|x r IH]; intros g pc ns; [reflexivity|]. destruct r as [|y r]; [reflexivity|].
+  rewrite alt_codes_cons2, galt_codes_cons2. destruct (visit bs x g hc (pc + 1) ns) as [|[c n1]]; auto. now rewrite IH.
+Qed.
+
+Lemma sem_alts_atom_list hc : forall l g st,
+  sem_alts cx fuel g (atom_list bs hc g l) st = gsem_alts (fun x g => asem x g hc) g l st.
+Proof.
+  induction l as [|x r IH]; intros g st; [reflexivity|]. cbn [atom_list sem_alts gsem_alts].
+  now rewrite at_ngroups, IH.
+Qed.
+
+Lemma seg_altD lk es : Forall (seg_stmtD lk) es -> seg_stmtD lk (Alt es).
+Proof.
+  intros IH. startD (Alt es). rewrite visit_alt in Hv. rewrite Edel in Hv. rewrite (atomize_alt bs es g hc Edel).
+  destruct (alt_codes hc g pc ns es) as [er|[cds ns1]] eqn:Hc; [discriminate|]. inversion Hv; subst code ns'. clear Hv.
+  rewrite alt_codes_galt in Hc.
+  assert (Hoke : oke lk g (Alt es)) by (repeat split; auto).
+  rewrite acheck_alt in Hac. destruct es as [|x r]; [discriminate|].
+  pose proof (okl_of_alt lk g x r Hoke) as Hokl. rewrite ngroups_alt in Hng.
+  assert (Hcf : Forall (cf_okD lk lk (fun x g pc ns => visit bs x g hc pc ns) (fun x g => asem x g hc)) (x :: r)).
+  { eapply Forall_impl; [|exact IH]. intros a Ha g0 pc0 ns0 code0 ns0' H1 H2 H3 H4 H5 H6. exact (Ha g0 hc pc0 ns0 code0 ns0' H1 H2 H3 H4 H5 H6). }
+  destruct (gseg_altsD lk lk _ _ r x Hcf g pc ns cds ns1 Hc Hnd HAt Hokl Hns Hng) as [M G]. split; auto.
+  intros v K Hsl Hokv. rewrite alt_layout_length, sem_alt_eq, sem_alts_atom_list. apply G; auto.
+Qed.
+
+
+Lemma seg_repeatD lk c lo hi gr : seg_stmtD lk c -> seg_stmtD lk (Repeat c lo hi gr).
+Proof.
+  intros IH. startD (Repeat c lo hi gr). cbn [visit] in Hv. rewrite Edel in Hv. rewrite (atomize_repeat bs c lo hi gr g hc Edel).
+  cbn [wfe] in Hw. cbn [zok] in Hz. cbn [acheck] in Hac. cbn [rok] in Hrk. destruct Hrk as [Hlh Hrk]. cbn [ngroups] in Hng.
+  assert (Hpres : forall hcx st st', st_ok cs st -> In st' (asem c g hcx st) -> st_ok cs st' /\ fst st <= fst st')
+    by (intros hcx; apply body_pres; now apply at_wfe).
+  assert (Hoc : oke lk g c) by (repeat split; auto).
+  destruct (N.eqb lo 0 && N.eqb hi 1) eqn:EA.
+  { (* e? *)
+    pose (hcx := hc).
+    apply andb_true_iff in EA as [E1 E2]. apply N.eqb_eq in E1, E2. subst lo hi.
+    apply bindc_inr in Hv as ([cc ns1] & Hc & Hr). inversion Hr; subst code ns'. clear Hr.
+    apply At_cons in HAt as [Ha1 HAc]. apply okdeleg2_cons in Hnd as [_ Hndc].
+    replace (pc + 1) with (S pc) in * by lia.
+    destruct (IH g hc (S pc) ns cc ns1 Hc Hndc HAc Hoc Hns Hng) as [Hmono IHc].
+    split; auto. intros v K Hsl Hok. rewrite sem_repeat_eq. rewrite one_ne_max. change (N.to_nat 1 - N.to_nat 0) with 1.
+    change (N.to_nat 0) with 0. cbn [rep_must].
+    rewrite flat_map_single. cbn [rep_opt_b]. rewrite flat_map_id. cbn [length].
+    assert (Hbody : forall v K, ns1 <= length (v_sl v) -> st_ok cs (sof v) ->
+              Gen pc (S pc + length cc) K (RunV (S pc) v K) (map (R lk v ns ns1) (asem c g hcx (sof v)))).
+    { intros v' K' H1 H2. apply Gen_weaken with (p := S pc); [lia|]. now apply IHc. }
+    replace (pc + S (length cc)) with (S pc + length cc) by lia.
+    apply (choice_gen lk pc (S pc + length cc) (S pc) (S pc + length cc) ns ns ns1 ltac:(lia) ltac:(lia) ltac:(lia) ltac:(lia) ltac:(lia) gr _ v v K).
+    - apply steps_step. destruct gr; apply step_splitV; exact Ha1.
+    - apply ext_refl.
+    - intros K'. now apply Hbody. }
+  pose (hcx := hc || hard bs g (Repeat c lo hi gr)).
+  destruct (N.eqb hi usize_max && N.eqb (min_size c) 0) eqn:EB.
+  { (* RepeatEpsilon *)
+    apply andb_true_iff in EB as [E1 E2]. apply N.eqb_eq in E1, E2.
+    apply bindc_inr in Hv as ([cc ns1] & Hc & Hr). inversion Hr; subst code ns'. clear Hr.
+    apply At_cons in HAt as [Ha1 HAt]. apply At_cons in HAt as [Ha2 HAt]. apply At_app in HAt as [HAc HAj]. apply At_cons in HAj as [Ha3 _].
+    apply okdeleg2_cons in Hnd as [_ Hnd]. apply okdeleg2_cons in Hnd as [_ Hnd]. apply okdeleg2_app in Hnd as [Hndc _].
+    replace (pc + 2) with (S (S pc)) in * by lia.
+    destruct (IH g _ (S (S pc)) (ns + 2) cc ns1 Hc Hndc HAc Hoc ltac:(lia) Hng) as [Hmono IHc].
+    split; [lia|]. intros v K Hsl Hok. rewrite sem_repeat_eq. rewrite E1, N.eqb_refl.
+    set (q := pc + length (ISave0 ns :: (if gr then IRepeatEpsilonGr lo (S (S pc) + length cc + 1) ns (ns + 1)
+                                          else IRepeatEpsilonNg lo (S (S pc) + length cc + 1) ns (ns + 1)) :: cc ++ [IJmp (pc + 1)])).
+    assert (Eq : q = S (S pc) + length cc + 1) by (unfold q; cbn [length]; rewrite app_length; cbn [length]; lia).
+    rewrite <- Eq in Ha2.
+    assert (Hbody : forall v K, ns1 <= length (v_sl v) -> st_ok cs (sof v) ->
+              Gen pc (S (S pc) + length cc) K (RunV (S (S pc)) v K) (map (R lk v (ns + 2) ns1) (asem c g hcx (sof v)))).
+    { intros v' K' H1 H2. apply Gen_weaken with (p := S (S pc)); [lia|]. now apply IHc. }
+    apply Gen_step. unfold RunV at 1. rewrite (step_save0 cx P MS pc _ _ _ K ns Ha1) by lia.
+    set (v1 := setsl v (upd (v_sl v) ns (V 0))).
+    change (Run (S pc) (v_ix v) (upd (v_sl v) ns (V 0)) (v_aux v) K) with (RunV (S pc) v1 K).
+    assert (Hs1 : sof v1 = sof v) by (apply sof_upd; lia).
+    assert (He1 : ext lk ns ns1 v v1).
+    { apply (ext_upd lk pc q (S (S pc)) (S (S pc) + length cc) ns (ns + 2) ns1 ltac:(lia) ltac:(lia) ltac:(lia) ltac:(lia) ltac:(lia)); [apply ext_refl|lia]. }
+    destruct (nth_error (v_sl v1) (ns + 1)) as [ck|] eqn:Eck.
+    2:{ apply nth_error_None in Eck. unfold v1 in Eck; cbn [setsl v_sl] in Eck. rewrite upd_length in Eck. lia. }
+    rewrite <- Hs1.
+    apply (eps_must lk pc q (S (S pc)) (S (S pc) + length cc) ns (ns + 2) ns1 (asem c g hcx)
+             ltac:(lia) ltac:(lia) ltac:(lia) ltac:(lia) ltac:(lia) Hbody (Hpres hcx) (S pc) gr lo) with (c := 0) (ck := ck); auto.
+    - intros v' K'. apply steps_step. apply step_jmpV. replace (pc + 1) with (S pc) in Ha3 by lia. exact Ha3.
+    - unfold v1; cbn [setsl v_sl]. rewrite upd_length. lia.
+    - now rewrite Hs1.
+    - unfold v1; cbn [setsl v_sl]. apply nth_upd_same. lia. }
+  assert (Hadv : hi = usize_max -> forall st st', st_ok cs st -> In st' (asem c g hcx st) -> fst st < fst st').
+  { intros Hm. apply body_adv; [now apply at_wfe|]. rewrite at_min. intros Hz0. rewrite Hm, Hz0 in EB. discriminate. }
+  destruct (N.eqb lo 0 && N.eqb hi usize_max) eqn:EC.
+  { (* star *)
+    apply andb_true_iff in EC as [E1 E2]. apply N.eqb_eq in E1, E2. subst lo.
+    apply bindc_inr in Hv as ([cc ns1] & Hc & Hr). inversion Hr; subst code ns'. clear Hr.
+    apply At_cons in HAt as [Ha1 HAt]. apply At_app in HAt as [HAc HAj]. apply At_cons in HAj as [Ha3 _].
+    apply okdeleg2_cons in Hnd as [_ Hnd]. apply okdeleg2_app in Hnd as [Hndc _].
+    replace (pc + 1) with (S pc) in * by lia.
+    destruct (IH g _ (S pc) ns cc ns1 Hc Hndc HAc Hoc Hns Hng) as [Hmono IHc].
+    split; auto. intros v K Hsl Hok. rewrite sem_repeat_eq. rewrite E2, N.eqb_refl.
+    change (N.to_nat 0) with 0. cbn [rep_must].
+    rewrite flat_map_single.
+    set (q := pc + length ((if gr then ISplit (S pc) (S pc + length cc + 1) else ISplit (S pc + length cc + 1) (S pc)) :: cc ++ [IJmp pc])).
+    assert (Eq : q = S pc + length cc + 1) by (unfold q; cbn [length]; rewrite app_length; cbn [length]; lia).
+    rewrite <- Eq in Ha1.
+    assert (Hbody : forall v K, ns1 <= length (v_sl v) -> st_ok cs (sof v) ->
+              Gen pc (S pc + length cc) K (RunV (S pc) v K) (map (R lk v ns ns1) (asem c g hcx (sof v)))).
+    { intros v' K' H1 H2. apply Gen_weaken with (p := S pc); [lia|]. now apply IHc. }
+    pose proof (st_ok_ix _ Hok).
+    apply (star_loop lk pc q (S pc) (S pc + length cc) ns ns ns1 (asem c g hcx)
+             ltac:(lia) ltac:(lia) ltac:(lia) ltac:(lia) ltac:(lia) Hbody (Hpres hcx) pc gr); auto.
+    - intros v' K'. apply steps_step. apply step_jmpV. exact Ha3.
+    - apply ext_refl.
+    - lia. }
+  destruct (N.eqb lo 1 && N.eqb hi usize_max) eqn:ED.
+  { (* plus *)
+    apply andb_true_iff in ED as [E1 E2]. apply N.eqb_eq in E1, E2. subst lo.
+    apply bindc_inr in Hv as ([cc ns1] & Hc & Hr). inversion Hr; subst code ns'. clear Hr.
+    apply At_app in HAt as [HAc HAj]. apply At_cons in HAj as [Ha3 _].
+    apply okdeleg2_app in Hnd as [Hndc _].
+    destruct (IH g _ pc ns cc ns1 Hc Hndc HAc Hoc Hns Hng) as [Hmono IHc].
+    split; auto. intros v K Hsl Hok. rewrite sem_repeat_eq. rewrite E2, N.eqb_refl.
+    change (N.to_nat 1) with 1. cbn [rep_must]. rewrite flat_map_id.
+    set (q := pc + length (cc ++ [if gr then ISplit pc (pc + length cc + 1) else ISplit (pc + length cc + 1) pc])).
+    assert (Eq : q = pc + length cc + 1) by (unfold q; rewrite app_length; cbn [length]; lia).
+    rewrite <- Eq in Ha3.
+    apply (body_then lk pc q pc (pc + length cc) ns ns ns1 (asem c g hcx) ltac:(lia) ltac:(lia) ltac:(lia) ltac:(lia) ltac:(lia) IHc); auto.
+    intros a v2 K2 Hin HR.
+    destruct (ext_R lk pc q pc (pc + length cc) ns ns ns1 ltac:(lia) ltac:(lia) ltac:(lia) ltac:(lia) ltac:(lia) v v a v2 (ext_refl lk ns ns1 v) HR) as (He2 & Es & Hl2).
+    destruct (Hpres hcx _ _ Hok Hin) as [Hoka _]. rewrite <- Es in Hoka.
+    pose proof (st_ok_ix _ Hoka). rewrite <- Es.
+    apply (star_loop lk pc q pc (pc + length cc) ns ns ns1 (asem c g hcx)
+             ltac:(lia) ltac:(lia) ltac:(lia) ltac:(lia) ltac:(lia) IHc (Hpres hcx) (pc + length cc) gr); auto; try lia.
+    intros v' K'. apply steps_refl. }
+  (* counted *)
+  apply bindc_inr in Hv as ([cc ns1] & Hc & Hr). inversion Hr; subst code ns'. clear Hr.
+  apply At_cons in HAt as [Ha1 HAt]. apply At_cons in HAt as [Ha2 HAt]. apply At_app in HAt as [HAc HAj]. apply At_cons in HAj as [Ha3 _].
+  apply okdeleg2_cons in Hnd as [_ Hnd]. apply okdeleg2_cons in Hnd as [_ Hnd]. apply okdeleg2_app in Hnd as [Hndc _].
+  replace (pc + 2) with (S (S pc)) in * by lia.
+  destruct (IH g _ (S (S pc)) (ns + 1) cc ns1 Hc Hndc HAc Hoc ltac:(lia) Hng) as [Hmono IHc].
+  split; [lia|]. intros v K Hsl Hok. rewrite sem_repeat_eq.
+  set (q := pc + length (ISave0 ns :: (if gr then IRepeatGr lo hi (S (S pc) + length cc + 1) ns
+                                        else IRepeatNg lo hi (S (S pc) + length cc + 1) ns) :: cc ++ [IJmp (pc + 1)])).
+  assert (Eq : q = S (S pc) + length cc + 1) by (unfold q; cbn [length]; rewrite app_length; cbn [length]; lia).
+  rewrite <- Eq in Ha2.
+  assert (Hbody : forall v K, ns1 <= length (v_sl v) -> st_ok cs (sof v) ->
+            Gen pc (S (S pc) + length cc) K (RunV (S (S pc)) v K) (map (R lk v (ns + 1) ns1) (asem c g hcx (sof v)))).
+  { intros v' K' H1 H2. apply Gen_weaken with (p := S (S pc)); [lia|]. now apply IHc. }
+  apply Gen_step. unfold RunV at 1. rewrite (step_save0 cx P MS pc _ _ _ K ns Ha1) by lia.
+  set (v1 := setsl v (upd (v_sl v) ns (V 0))).
+  change (Run (S pc) (v_ix v) (upd (v_sl v) ns (V 0)) (v_aux v) K) with (RunV (S pc) v1 K).
+  assert (Hs1 : sof v1 = sof v) by (apply sof_upd; lia).
+  assert (He1 : ext lk ns ns1 v v1).
+  { apply (ext_upd lk pc q (S (S pc)) (S (S pc) + length cc) ns (ns + 1) ns1 ltac:(lia) ltac:(lia) ltac:(lia) ltac:(lia) ltac:(lia)); [apply ext_refl|lia]. }
+  rewrite <- Hs1.
+  apply (cnt_must lk pc q (S (S pc)) (S (S pc) + length cc) ns (ns + 1) ns1 (asem c g hcx)
+           ltac:(lia) ltac:(lia) ltac:(lia) ltac:(lia) ltac:(lia) Hbody (Hpres hcx) (S pc) gr lo hi) with (c := 0); auto.
+  - intros v' K'. apply steps_step. apply step_jmpV. replace (pc + 1) with (S pc) in Ha3 by lia. exact Ha3.
+  - unfold v1; cbn [setsl v_sl]. rewrite upd_length. lia.
+  - now rewrite Hs1.
+  - unfold v1; cbn [setsl v_sl]. apply nth_upd_same. lia.
+  - intros; lia.
 Qed.
 
 End D.
